@@ -35,7 +35,9 @@ CONSTANTS MaxLen,      \* bound on the length of the generated strings
 \* exponent-leading-zero : `1e01` - a leading zero in the exponent (JSON allows it) is rejected
 \* lookahead-past-end    : the scanner loads the character after the end marker; if that is NUL / invalid
 \*                         UTF-8 the expression before it is rejected although it ended at `}}`
-AllDevs == {"exponent-plus", "exponent-leading-zero", "lookahead-past-end"}
+\* "exponent-plus" and "lookahead-past-end" were repaired in /repo (fix: commits 59e5ddd and the one after it);
+\* their branches stay in the DFA as named, disabled deviations.  The code as it is = the design + AllDevs.
+AllDevs == {"exponent-leading-zero"}
 
 Letter == {"alpha", "hexalpha", "e", "x"}
 Digit == {"zero", "nz"}
